@@ -7,8 +7,14 @@
           outcome: 0 parse error, 1 hook error, 2 raised, 3 reply, 4 element
           profile: 0 default 1 junos 2 alu 3 sros;  cls: 0 plain 1 get 2 get-schema;  raise_kind: 0 none 1 single 2 multi
           site: 0 reply parse, 1 error re-parse, 2 xslt sheet, 3 xslt input, 4 xslt output
-   fn 6 erase_ns [xnode] -> xnode          fn 7 drop_blank [xnode] -> xnode     fn 8 strip [xnode] -> xnode *)
-From NC Require Import Model.Base Model.XTree Model.XmlHelpers Model.NsStrip Model.ReplyView Glue.XCodec.
+   fn 6 erase_ns [xnode] -> xnode          fn 7 drop_blank [xnode] -> xnode     fn 8 strip [xnode] -> xnode
+   histories (Model/ReplyLife.v); event: [0;b] manager.huge_tree=b  [1;b] manager.async_mode=b  [2;id;cls;forced] call
+                                         [3;id;b] rpc.huge_tree=b   [4;id;VB raw] a message with this id is dispatched
+   fn 9 run       [VN huge0; VN async0; VL events] -> VL, one entry per call event in order:
+          VL [VN id; VN cls; VN huge; VN async; VN registered; VL [] | VL [VL [VN cls; VB raw; VN huge]]]
+   fn 10 async_read [VN profile; VN cls; VN huge; xnode root] -> as fn 5
+   fn 11 finish   [VN huge0; VN async0; VL events; VN id; VN profile; VN raise_kind; xnode root] -> VL [] (no reply) | VL [as fn 5] *)
+From NC Require Import Model.Base Model.XTree Model.XmlHelpers Model.NsStrip Model.ReplyView Model.ReplyLife Glue.XCodec.
 
 Definition dec_cls (n : N) : reply_cls := match n with 1 => ClsGet | 2 => ClsSchema | _ => ClsPlain end.
 Definition dec_prof (n : N) : profile := match n with 1 => PJunos | 2 => PAlu | 3 => PSros | _ => PDefault end.
@@ -24,8 +30,52 @@ Definition enc_data (d : data_view) : val :=
   end.
 Definition enc_log (l : list (site * bool)) : val := VL (map (fun x => VL [enc_site (fst x); vbool (snd x)]) l).
 
+Definition enc_cls (c : reply_cls) : val := VN (match c with ClsPlain => 0 | ClsGet => 1 | ClsSchema => 2 end).
+Definition dec_event (v : val) : option event :=
+  match v with
+  | VL [VN 0; VN b] => Some (ESetMgrHuge (nz b))
+  | VL [VN 1; VN b] => Some (ESetMgrAsync (nz b))
+  | VL [VN 2; VN id; VN c; VN f] => Some (ECall id (dec_cls c) (nz f))
+  | VL [VN 3; VN id; VN b] => Some (ESetRpcHuge id (nz b))
+  | VL [VN 4; VN id; VB raw] => Some (EDeliver id raw)
+  | _ => None
+  end.
+Fixpoint dec_events (l : list val) : list event :=
+  match l with
+  | [] => []
+  | v :: t => match dec_event v with Some e => e :: dec_events t | None => dec_events t end
+  end.
+Definition enc_reply (r : reply) : val := VL [enc_cls (r_cls r); VB (r_raw r); vbool (r_huge r)].
+Definition enc_rpc (id : N) (w : world) : val :=
+  match w_rpcs w id with
+  | Some o => VL [VN id; enc_cls (o_cls o); vbool (o_huge o); vbool (o_async o); vbool (o_reg o); vopt (option_map enc_reply (o_reply o))]
+  | None => VL [VN id]
+  end.
+Fixpoint called (h : list event) : list N :=
+  match h with [] => [] | ECall id _ _ :: t => id :: called t | _ :: t => called t end.
+Definition enc_outcome (x : outcome * list (site * bool)) : val :=
+  match x with
+  | (OParseError, l) => VL [VN 0; enc_log l; VL []]
+  | (OHookError, l) => VL [VN 1; enc_log l; VL []]
+  | (ORaised, l) => VL [VN 2; enc_log l; VL []]
+  | (OReply _ _ d, l) => VL [VN 3; enc_log l; VL [enc_data d]]
+  | (OElem _ x, l) => VL [VN 4; enc_log l; VL [enc_x x]]
+  end.
+
 Definition run (v : val) : val :=
   match v with
+  | VL [VN 9; VN h0; VN a0; VL evs] =>
+      let h := dec_events evs in
+      let w := run_hist (world0 (nz h0) (nz a0)) h in
+      VL (map (fun id => enc_rpc id w) (called h))
+  | VL [VN 10; VN p; VN c; VN f; t] =>
+      let root := dec_x t in
+      enc_outcome (async_read (fun _ _ => Some root) (dec_prof p) (mkReply (dec_cls c) [] (nz f)))
+  | VL [VN 11; VN h0; VN a0; VL evs; VN id; VN p; VN k; t] =>
+      let root := dec_x t in
+      let w := run_hist (world0 (nz h0) (nz a0)) (dec_events evs) in
+      vopt (option_map enc_outcome
+              (finish (fun _ _ => Some root) (fun _ _ => Some root) (fun _ x => Some x) (dec_prof p) (dec_rk k) id w))
   | VL [VN 1; t] => enc_x (junos_xslt (dec_x t))
   | VL [VN 2; t] => enc_x (alu (dec_x t))
   | VL [VN 3; VN c; t] => enc_data (data_of (dec_cls c) (dec_x t))
